@@ -678,37 +678,51 @@ void __wrap_qsort(void *base, size_t n, size_t sz, int (*cmp)(const void *, cons
 int __real_pthread_mutex_lock(pthread_mutex_t *);
 int __real_pthread_mutex_unlock(pthread_mutex_t *);
 int __real_pthread_mutex_trylock(pthread_mutex_t *);
+// The wrappers are simulator code: they run with sim_atomic_depth set, so that their
+// own bookkeeping (std::map, std::vector) is neither traced as a task access nor a
+// yield point; the yield points they contain are explicit.
 int __wrap_pthread_mutex_lock(pthread_mutex_t *m) {
-    if (g_cur < 0) return __real_pthread_mutex_lock(m);
-    guarded_yield();
+    if (g_cur < 0 || sim_atomic_depth) return __real_pthread_mutex_lock(m);
+    sim_atomic_depth = 1;
+    yield_point();
     MutexState &s = mutex_for(m);
     while (s.owner >= 0 && s.owner != g_cur) {
         g_tasks[g_cur].blocked = true;
         g_tasks[g_cur].blocked_on = (uintptr_t)m;
         task_done_or_blocked();
-        if (g_res && g_res->deadlock) return 0;
+        sim_atomic_depth = 1;
+        if (g_res && g_res->deadlock) break;
     }
     s.owner = g_cur;
     g_tasks[g_cur].locks |= 1u << s.id;
+    sim_atomic_depth = 0;
     return 0;
 }
 int __wrap_pthread_mutex_trylock(pthread_mutex_t *m) {
-    if (g_cur < 0) return __real_pthread_mutex_trylock(m);
-    guarded_yield();
+    if (g_cur < 0 || sim_atomic_depth) return __real_pthread_mutex_trylock(m);
+    sim_atomic_depth = 1;
+    yield_point();
     MutexState &s = mutex_for(m);
-    if (s.owner >= 0 && s.owner != g_cur) return 16; // EBUSY
-    s.owner = g_cur;
-    g_tasks[g_cur].locks |= 1u << s.id;
-    return 0;
+    int rc = 0;
+    if (s.owner >= 0 && s.owner != g_cur)
+        rc = 16; // EBUSY
+    else {
+        s.owner = g_cur;
+        g_tasks[g_cur].locks |= 1u << s.id;
+    }
+    sim_atomic_depth = 0;
+    return rc;
 }
 int __wrap_pthread_mutex_unlock(pthread_mutex_t *m) {
-    if (g_cur < 0) return __real_pthread_mutex_unlock(m);
+    if (g_cur < 0 || sim_atomic_depth) return __real_pthread_mutex_unlock(m);
+    sim_atomic_depth = 1;
     MutexState &s = mutex_for(m);
     s.owner = -1;
     g_tasks[g_cur].locks &= ~(1u << s.id);
     for (int i = 0; i < g_ntasks; i++)
         if (g_tasks[i].blocked && g_tasks[i].blocked_on == (uintptr_t)m) g_tasks[i].blocked = false;
-    guarded_yield();
+    yield_point();
+    sim_atomic_depth = 0;
     return 0;
 }
 }
